@@ -694,7 +694,7 @@ class Comparison_evaluate_comparison(Contract):
     """contract of the helper as used by fitness(); verified below (Comparison_evaluate_comparison_body)"""
     target = "constraints/comparison.py:ComparisonConstraint._evaluate_comparison"
     properties = ("C02", "C07")
-    float_mode = "real"
+    float_mode = "ieee"
     cases = ("EQUAL", "NOT_EQUAL", "GREATER", "GREATER_EQUAL", "LESS", "LESS_EQUAL")
 
     # -- call-site direction
@@ -753,10 +753,24 @@ class Comparison_compare(Contract):
 
 
 @register
+class Comparison_sigmoid(Contract):
+    """assumed: 1 / (1 + exp(-x)) is a float in [0, 1] (math.exp is external)"""
+    target = "constraints/comparison.py:_sigmoid"
+    trusted = True
+
+    def fresh_result(self, cx, a):
+        return cx.float("sigmoid")
+
+    def ensures(self, cx, a, r):
+        from pyvc.dsl import fge, fle
+        return [("sigmoid_in_unit_interval", And(fge(r, 0.0), fle(r, 1.0)))]
+
+
+@register
 class Comparison_distance_norm(Contract):
     target = "constraints/comparison.py:_distance_norm"
     properties = ("C02", "C07")
-    float_mode = "real"
+    float_mode = "ieee"
 
     def inputs(self, cx):
         l, r = cx.opaque("value", base="left"), cx.opaque("value", base="right")
